@@ -31,7 +31,7 @@ FUNCS = ['fol.Context.add_expr', 'fol.Context.declare', 'fol.Context._avoid_rede
          'temporal.Automaton._fetch_expr', 'symbolic.bdd.add_expr', 'symbolic.bdd_iterative.add_expr',
          'orthotopes.setup_aux_vars', 'gr1.make_streett_transducer']
 SOLVER_MS = 60000
-OPS = 'ADQSPRGCTVIBO'      # operation alphabet of the histories
+OPS = 'ADQSPRGCTVIBOW'     # operation alphabet of the histories
 DECL = dict(x=(0, 5), y=(-3, 2), b='bool')
 
 
@@ -126,6 +126,7 @@ class History:
         self.log = []
         self.n_decl = 0
         self.labels = {}       # init/action key -> (expr, term)
+        self.pending = []      # problems found inside an operation
 
     def export(self, u):
         from vlib import bdd2smt
@@ -160,6 +161,7 @@ class History:
                 else:
                     problems.append(f'operation {op} at step {step} raised {type(e).__name__} at {where.name}:{where.lineno}: {str(e)[:80]}')
                     break
+            problems += self.pending
             for label, u, term in self.tracked:
                 r = _equiv(z3, self.export(u), term)
                 q[r] = q.get(r, 0) + 1
@@ -311,6 +313,34 @@ class History:
                 aut.action[k] = s
                 u = aut.action[k]
             self.tracked.append((f'label {k} = {s}', u, self.export(u)))
+        elif op == 'W':
+            # attempt to re-declare an existing variable with a different hint: either refused (ValueError,
+            # nothing changes) or, if the call returns, the new hint is the one the context reports
+            from vlib import link, sem
+            v = rnd.choice(['x', 'y'])
+            old = dict(aut.vars[v])
+            lo, hi = old['dom']
+            new = rnd.choice([(lo, hi - 1), (lo + 1, hi), (lo, hi + 1), (lo - 1, hi), (lo, 4 * abs(hi) + 9), 'bool'])
+            try:
+                aut.declare_variables(**{v: new})
+                accepted = True
+            except ValueError:
+                accepted = False
+            now = aut.vars[v]
+            if not accepted:
+                if now.get('dom') != old.get('dom') or now.get('width') != old.get('width') or now['type'] != old['type']:
+                    self.pending.append(f're-declaration of {v} as {new} was refused but changed the table: {old} -> {now}')
+            else:
+                ok = (now['type'] == 'bool') if new == 'bool' else (now['type'] == 'int' and tuple(now['dom']) == tuple(new))
+                if ok and new != 'bool':
+                    hint = aut.add_expr(aut.type_hint_for([v]))
+                    table = {k: d for k, d in aut.vars.items() if not k.endswith("'")}
+                    want = sem.to_z3(('in', ('var', v, False), ('num', new[0]), ('num', new[1])), sem.Env(table, self.bits))[0]
+                    ok = _equiv(z3, self.export(hint), want) == 'unsat'
+                if not ok:
+                    self.pending.append(f're-declaration of {v} (was {old.get("dom", old["type"])}) as {new} returned without error, '
+                                        f'but the context reports {now.get("dom", now["type"])} / hint {aut.type_hint_for([v])!r}: '
+                                        'the meaning of later results depends on the declaration history')
         else:
             raise ValueError(op)
 
